@@ -122,6 +122,20 @@ def check_case(case):
             raise Violation('root/txids-builder' + ('-again' if again else ''), 'n=%d: build_merkle_tree_from_txids(list)[-1] != reference (call %d with the same list)' % (n, again + 1))
         if ids != [W.txid(t) for t in txs]:
             raise Violation('root/txids-builder-changed-argument', 'n=%d: build_merkle_tree_from_txids changed the list it was given' % n)
+    if (n + case['salt']) % 2 == 0:
+        # the transactions handed over as a one-shot iterable (generator / iterator; accepted today): the right root - or a clean
+        # TypeError should a sequence be demanded - never the root of the part a second pass over the iterable still sees
+        for kind, it in (('iterator', iter(vtx)), ('generator', (o for o in vtx))):
+            r = libx.call('build_merkle_tree_from_txs-' + kind, CBlock.build_merkle_tree_from_txs, it, allowed=(TypeError,))
+            if r[0] == 'ok' and tuple(r[1])[-1] != root:
+                raise Violation('root/static-builder-' + kind, 'n=%d: build_merkle_tree_from_txs(<%s>)[-1] != reference' % (n, kind))
+        if any(W.has_witness(t) for t in txs):
+            wr_ = M.witness_root([W.wtxid(t) for t in txs])
+            for kind, it in (('iterator', iter(vtx)), ('generator', (o for o in vtx)), ('map', map(lambda o: o, vtx))):
+                r = libx.call('build_witness_merkle_tree_from_txs-' + kind, CBlock.build_witness_merkle_tree_from_txs, it, allowed=(TypeError,))
+                if r[0] == 'ok' and tuple(r[1])[-1] != wr_:
+                    raise Violation('wroot/static-builder-' + kind, 'n=%d: build_witness_merkle_tree_from_txs(<%s>)[-1] != reference' % (n, kind))
+        # (CBlock(vtx=<iterator>) is NOT asked: the constructor reads its argument twice - the property speaks of lists)
     if any(W.has_witness(t) for t in txs):
         if tuple(libx.call('build_witness_merkle_tree_from_txs', CBlock.build_witness_merkle_tree_from_txs, vtx)[1])[-1] != M.witness_root([W.wtxid(t) for t in txs]):
             raise Violation('wroot/static-builder', 'n=%d: build_witness_merkle_tree_from_txs(...)[-1] != reference' % n)
